@@ -50,6 +50,8 @@ def run(ctx, monitors, n_docs, n_ra=0.3):
         if bad:
             ctx.divergences.append(("search-contract", "a regex match violates the span contract assumed by the theorems: "
                                     + repr(bad[0])[:300], dict(text=d)))
+        if P.defyear_unmet(run["rec"]):
+            ctx.count("document on which the premise defyear_ok of the C17 theorem is unmet (monitor only)")
         badt = P.check_tokens(run["words"])
         if badt:
             ctx.divergences.append(("token-contract", "a special token violates the regex facts assumed by the theorems: "
